@@ -348,7 +348,7 @@ fn e_examples(i: u64, ctx: &mut Ctx) -> Result<(), Failure> {
 }
 
 pub fn streams() -> Vec<Stream> {
-    vec![Stream { name: "examples", kind: Kind::Enum { count: |_| (crate::seeds::examples().len() * 40) as u64, complete: |_| true, f: e_examples }, isolate: false }, Stream { name: "prune", kind: Kind::Tape { cases: |t: Tier| t.pick(12_000, 300_000), max_len: 420, f: s_prune }, isolate: false }, Stream { name: "destructure", kind: Kind::Tape { cases: |t: Tier| t.pick(20_000, 500_000), max_len: 300, f: s_destructure }, isolate: false }]
+    vec![Stream { name: "examples", kind: Kind::Enum { count: |_| (crate::seeds::examples().len() * 40) as u64, complete: |_| true, f: e_examples }, isolate: false }, Stream { name: "prune", kind: Kind::Tape { cases: |t: Tier| t.pick(12_000, 150_000), max_len: 420, f: s_prune }, isolate: false }, Stream { name: "destructure", kind: Kind::Tape { cases: |t: Tier| t.pick(20_000, 250_000), max_len: 300, f: s_destructure }, isolate: false }]
 }
 
 pub fn def() -> PropertyDef {
